@@ -118,6 +118,119 @@ def corr_plan(ck, requests, label="plan", profile="debug", no_oracle=False, time
     return out
 
 
+# ---------------------------------------------------------------------------------------------------
+# `arun`: the evaluator of the C03 theorems (AEval + evalPrims) against the real runtime
+
+RESOURCE_ENDS = ("fuel", "rt:StackOverflow", "hang")
+
+
+def _resource(end):
+    return end in RESOURCE_ENDS or end.startswith("abort")
+
+
+def compare_arun(impl, model):
+    """[] when the two `arun` answers agree. A run that ends in resource exhaustion on either side (the model's
+    fuel, the runtime's stack check, a hang / abort of the child) is not compared — the property excludes it."""
+    if impl == model:
+        return []
+    a, b = parse(impl), parse(model)
+    keys = ("plan", "plain.out", "plain.end", "pruned.out", "pruned.end")
+    if any(k not in a for k in keys) or any(k not in b for k in keys):
+        return [f"answers differ impl={impl[:160]} model={model[:160]}"]
+    why = []
+    if a["plan"] != b["plan"]:
+        why.append(f"the request's plan {b['plan']} is not the resolver's plan {a['plan']}")
+    for tag in ("plain", "pruned"):
+        ea, eb = a[tag + ".end"], b[tag + ".end"]
+        if _resource(ea) or _resource(eb):
+            continue
+        if ea != eb:
+            why.append(f"{tag} run: ending runtime={ea} fragment={eb}")
+        elif a[tag + ".out"] != b[tag + ".out"]:
+            why.append(f"{tag} run: printed values runtime={a[tag + '.out'][:120]} fragment={b[tag + '.out'][:120]}")
+    return why
+
+
+def arun_requests(ck, hex_sources):
+    """hex source texts → `arun` request lines through the real front end (rejected programs are dropped)."""
+    if not hex_sources:
+        return []
+    p = sh([ck.nvh(), "plan", "req", "--arun", "--hex"], inp=("\n".join(hex_sources) + "\n").encode(), timeout=900)
+    lines = p.stdout.decode(errors="replace").splitlines()
+    if p.returncode != 0 or len(lines) != len(hex_sources):
+        raise MachineryError(f"nvh plan req --arun failed rc={p.returncode} {len(lines)}/{len(hex_sources)}")
+    return [l for l in lines if l.startswith("arun ")]
+
+
+def corr_arun(ck, requests, label="arun", profile="debug", timeout=3000):
+    """`arun` requests through the real runtime (`nvh plan run`: without and with the real plan, forked) and through
+    the fragment evaluator instantiated with Eval's primitives (`nvdriver plan`); disagreements by `compare_arun`.
+    Also an implementation-level oracle: the runtime's own two runs must agree (C03 itself)."""
+    if not requests:
+        return None
+    req_bytes = ("\n".join(requests) + "\n").encode()
+    impl = sh([ck.nvh(profile), "plan", "run", "--no-oracle"], inp=req_bytes, timeout=timeout)
+    impl_lines = impl.stdout.decode(errors="replace").splitlines()
+    if impl.returncode != 0 or len(impl_lines) != len(requests):
+        ck.broken.append({"kind": "impl-run-died", "family": "plan", "stream": label, "rc": impl.returncode,
+                          "answered": len(impl_lines), "of": len(requests),
+                          "stderr": impl.stderr.decode(errors="replace").splitlines()[-5:]})
+    model_lines = []
+    if os.path.exists(DRIVER):
+        mod = sh([DRIVER, "plan"], inp=req_bytes, timeout=timeout)
+        model_lines = mod.stdout.decode(errors="replace").splitlines()
+        if mod.returncode != 0 or len(model_lines) != len(requests):
+            raise MachineryError(f"driver failed on family plan (arun): rc={mod.returncode} "
+                                 f"{len(model_lines)}/{len(requests)} {mod.stderr.decode(errors='replace')[-500:]}")
+    dis, fails = [], []
+    compared = skipped = resource = nonempty = rt_end = pruned_differs = 0
+    for i, (a, b) in enumerate(zip(impl_lines, model_lines)):
+        why = compare_arun(a, b)
+        if why:
+            dis.append((i, why))
+        pa, pb = parse(a), parse(b)
+        if a == "arun skip" or b == "arun skip" or "plain.end" not in pa or "plain.end" not in pb:
+            skipped += 1
+            continue
+        ends = [pa["plain.end"], pa["pruned.end"], pb["plain.end"], pb["pruned.end"]]
+        if any(_resource(e) for e in ends):
+            resource += 1
+        else:
+            compared += 1
+            if pa["plan"] not in ("-;-", "none"):
+                nonempty += 1
+            if pa["plain.end"].startswith("rt:"):
+                rt_end += 1
+        # C03 on the implementation itself (same as the differential oracle, here with process execution denied)
+        if not _resource(pa["plain.end"]) and not _resource(pa["pruned.end"]) and \
+                (pa["plain.end"], pa["plain.out"]) != (pa["pruned.end"], pa["pruned.out"]) and \
+                not (pa["plain.end"] == "panic" and pa["pruned.end"] == "panic"):
+            fails.append((i, f"plan-changes-behaviour (arun) plain=[{pa['plain.out'][:80]}] {pa['plain.end']} "
+                             f"with-plan=[{pa['pruned.out'][:80]}] {pa['pruned.end']}"))
+            pruned_differs += 1
+    res = {"family": label, "requests": len(requests), "impl_answers": len(impl_lines),
+           "model_answers": len(model_lines), "disagreements": len(dis), "oracle_fails": len(fails),
+           "compared": compared, "with_nonempty_plan": nonempty, "ending_in_runtime_error": rt_end,
+           "skipped_read_line_or_rejected": skipped, "not_compared_resource_exhaustion": resource, "profile": profile}
+    ck.streams.append(res)
+    ck.evaluations += len(requests)
+    ck.count("arun_programs_compared", compared)
+    ck.count("arun_with_nonempty_plan", nonempty)
+    ck.count("arun_ending_in_runtime_error", rt_end)
+    ck.count("arun_skipped_read_line", skipped)
+    ck.count("arun_not_compared_resource_exhaustion", resource)
+    for (i, why) in dis[:20]:
+        ck.disagreements.append({"family": "plan", "stream": label, "line": i + 1, "request": requests[i],
+                                 "source": source_of(requests[i]), "impl": impl_lines[i], "model": model_lines[i],
+                                 "why": why, "history": [requests[i]]})
+    for (i, msg) in fails[:20]:
+        ck.oracle_fails.append({"family": "plan", "line": i + 1, "request": requests[i], "source": source_of(requests[i]),
+                                "what": msg, "history": [requests[i]]})
+    out = dict(res)
+    out.update({"impl_lines": impl_lines, "model_lines": model_lines, "dis": dis, "fails": fails})
+    return out
+
+
 def corpus_sources(verif):
     path = os.path.join(verif, "corpus", "C03", "seeds.txt")
     out = []
